@@ -10,6 +10,8 @@ def run(P, R, L):
     K.verd1(P, R, L, what=("table",))
     R.clause("PAIR-7", "two-level iteration skips empty blocks in the direction of travel (TwoLevelIterator / FilesEntryIterator)")
     K.pair7_direction(P, R, L, types={"tables::table::TwoLevelIterator", "versioning::file_iterators::FilesEntryIterator"})
+    R.clause("KEY-1", "InternalKey order: user key ascending, then sequence number descending (newest first); the sequence only breaks ties")
+    K.key1_internal_key_order(P, R, L)
     R.clause("PAIR-11", "after (re)loading a data block / table the child iterator is positioned explicitly (the loader may hand back the old cursor)")
     K.pair11_loaded_child_positioned(P, R, L)
     R.clause("PAIR-5", "the filter block is populated with exactly the keys of each data block and told the true start offset of the next one "
